@@ -17,8 +17,8 @@ _perform_transition(name):                       State.leave(destination):      
 ```
 
 States are numbered in creation order (a parent is created before its children: `parent < child`).
-Handlers are a function from the fired event and the state at that moment to the transition names the registered callbacks
-request, in order (a callback requests by calling `_perform_transition`, i.e. *nested*, before `fire` returns).  An exception
+Handlers: for each event the list of registered callbacks; a callback is a function from the state at the moment it runs to the
+transition names it requests (it requests by calling `_perform_transition`, i.e. *nested*, before `fire` returns).  An exception
 (unknown transition, wrong source state) propagates through every frame: the model returns the state at the moment of the raise.
 All functions take one fuel argument (Python: the recursion limit); `fail .fuel` stands for `RecursionError`.
 -/
@@ -58,8 +58,11 @@ def Out.err : Out → Option Fail
   | .ok _ => none
   | .fail e _ => some e
 
-/-- transitions requested by the callbacks of an event, in registration order -/
-abbrev Handlers := Ev → St → List String
+/-- one registered callback: the transitions it requests (by calling `_perform_transition`), given the state at the moment it runs -/
+abbrev Callback := St → List String
+
+/-- the callbacks registered on an event, in registration order (`Event.__call__` runs them one after the other) -/
+abbrev Handlers := Ev → List Callback
 
 def setFlag (a : Nat → Bool) (s : Nat) (b : Bool) : Nat → Bool := fun x => if x = s then b else a x
 
@@ -115,7 +118,14 @@ def fire (m : MDef) (h : Handlers) : Nat → St → Ev → Out
   | 0, st, _ => .fail .fuel st
   | f+1, st, ev =>
     let st1 : St := { st with log := st.log ++ [ev] }
-    performAll m h f st1 (h ev st1)
+    runCallbacks m h f st1 (h ev)
+def runCallbacks (m : MDef) (h : Handlers) : Nat → St → List Callback → Out
+  | 0, st, _ => .fail .fuel st
+  | _+1, st, [] => .ok st
+  | f+1, st, cb :: rest =>
+    match performAll m h f st (cb st) with
+    | .fail e s1 => .fail e s1
+    | .ok s1 => runCallbacks m h f s1 rest
 def performAll (m : MDef) (h : Handlers) : Nat → St → List String → Out
   | 0, st, _ => .fail .fuel st
   | _+1, st, [] => .ok st
@@ -126,7 +136,7 @@ def performAll (m : MDef) (h : Handlers) : Nat → St → List String → Out
 end
 
 /-- no callback requests anything -/
-def noHandlers : Handlers := fun _ _ => []
+def noHandlers : Handlers := fun _ => []
 
 /-! ## ancestors -/
 
